@@ -178,6 +178,7 @@ CHECKS["C01"] = dict(
     jobs=[
         dict(harness="combine", prop="combine", cases=T(150000, 1500000), procs=T(6, 12)),
         dict(harness="combine", prop="combine", cases=T(15000, 200000), procs=T(1, 2), env={"PIXMAN_DISABLE": "sse2 ssse3 mmx"}, tag="combine_nosimd"),
+          dict(harness="combine", prop="combine", cases=T(15000, 200000), procs=T(1, 2), env={"PIXMAN_DISABLE": "sse2 ssse3"}, tag="combine_mmx"),
         dict(harness="combine", prop="combine", cases=T(15000, 200000), procs=T(1, 2), env={"PIXMAN_DISABLE": "fast sse2 ssse3 mmx"}, tag="combine_general"),
     ],
     floor=T(200000, 5000000), nt_floor=T(50000, 1000000),
